@@ -151,12 +151,18 @@ func (m *CacheMon) Step(w *World, _ string) {
 		if loaded && (!e.HasMQSub || w.MQ.Subscribed("event."+e.Name) == nil) {
 			w.Fail("C09", "cached-without-subscription", "cache entry %s holds a requested/loaded resource without an event subscription", name)
 		}
-		if quiet {
+		if quiet && !e.Locked && e.QueueLen == 0 {
 			if int(e.Count) != subs+pend[e.Name] {
 				w.Fail("C09", "count-mismatch", "cache entry %s: use count %d but %d subscribers + %d requests in flight", name, e.Count, subs, pend[e.Name])
 			}
 			// every subscriber the cache lists is a live connection subscription and vice versa
-			if loaded && subs != connUses[e.Name] {
+			getPending := false
+			for _, r := range w.MQ.Pending() {
+				if r.Subject == "get."+e.Name {
+					getPending = true // an aliasing subscriber may sit on a loaded resource while its own get is out
+				}
+			}
+			if loaded && !getPending && subs != connUses[e.Name] {
 				// subscribers still waiting for the get answer are listed by the cache only
 				waiting := 0
 				for _, r := range e.Resources {
